@@ -277,3 +277,103 @@ def injectivity_instances(fn, exprs):
             x, y = apps[i], apps[j]
             cs.append(z3.Implies(x == y, z3.And([a == b for a, b in zip(x.children(), y.children())])))
     return cs
+
+
+# ------------------------------------------------------------------ Deferred chains (twisted semantics, trusted model)
+
+class FailureStub(object):
+    """stands for twisted.python.failure.Failure wrapping exception `exc` of class `cls`"""
+
+    def __init__(self, exc, cls):
+        self.value, self.type = exc, cls
+
+    def __repr__(self):
+        return "<Failure %s>" % getattr(self.type, "__name__", self.type)
+
+
+def failure_stub(cls, *args):
+    from pyvc.interp import ModelFn
+    exc = cls(*args) if isinstance(cls, type) else cls
+    ecls = cls if isinstance(cls, type) else type(cls)
+    f = FailureStub(exc, ecls)
+
+    def check(I, a, kw):
+        for c in a:
+            if isinstance(c, type) and issubclass(ecls, c):
+                return c
+        return None
+
+    def trap(I, a, kw):
+        r = check(I, a, kw)
+        if r is None:
+            raise PyRaise(exc, ecls)
+        return r
+    s = stub("Failure", check=check, trap=trap, value=exc, type=ecls, getErrorMessage=lambda I, a, kw: "error", raiseException=lambda I, a, kw: (_ for _ in ()).throw(PyRaise(exc, ecls)))
+    s.is_failure = True
+    s.exc, s.exc_cls = exc, ecls
+    try:
+        from twisted.python.failure import Failure
+        s.cls = Failure          # isinstance(x, failure.Failure) holds for the stub
+    except ImportError:
+        pass
+    return s
+
+
+def is_failure(v):
+    return getattr(v, "is_failure", False) is True
+
+
+def fire_chain(I, d, result, start=0):
+    """run the callbacks recorded on DStub `d` with `result` as twisted would: callbacks on success, errbacks on failure,
+    a raised exception becomes a failure, a returned failure stays one.  Returns (final result, log of (kind, fn) run)."""
+    from pyvc.models_tahoe import DStub
+    ran = []
+    i = start
+    while i < len(d.callbacks):
+        kind, fn, args, kw = d.callbacks[i]
+        i += 1
+        failed = is_failure(result)
+        if kind == "addCallbacks":
+            cb, (eb,) = fn, args
+            fn, args = (eb, ()) if failed else (cb, ())
+            if fn is None:
+                continue
+        elif kind == "addCallback" and failed:
+            continue
+        elif kind == "addErrback" and not failed:
+            continue
+        ran.append((kind, fn))
+        try:
+            result = I.call_value(fn, [result] + list(args), kw)
+        except PyRaise as pr:
+            result = failure_stub(pr.exc if not isinstance(pr.exc, SObj) else pr.exc, pr.cls) if not isinstance(pr.exc, SObj) else _sobj_failure(pr)
+        if isinstance(result, DStub):
+            if result.state == "pending":
+                raise Undecided("callback returned a pending Deferred")
+            inner, _ = fire_chain(I, result, result.value if result.state == "succeeded" else result.value)
+            result = inner
+    d.state = "failed" if is_failure(result) else "succeeded"
+    d.value = result
+    return result, ran
+
+
+def _sobj_failure(pr):
+    f = failure_stub(Exception, "x")
+    f.exc, f.exc_cls = pr.exc, pr.cls
+    f.fields["value"], f.fields["type"] = pr.exc, pr.cls
+    from pyvc.interp import ModelFn
+
+    def check(I, a, kw):
+        for c in a:
+            if isinstance(c, type) and isinstance(pr.cls, type) and issubclass(pr.cls, c):
+                return c
+        return None
+
+    def trap(I, a, kw):
+        r = check(I, a, kw)
+        if r is None:
+            raise PyRaise(pr.exc, pr.cls)
+        return r
+    f.fields["check"] = ModelFn("Failure.check", check)
+    f.fields["trap"] = ModelFn("Failure.trap", trap)
+    return f
